@@ -36,6 +36,8 @@ const (
 	dBlock
 	dUnblock
 	dWait
+	dSleep  // (not an op of the model) the driver pauses well beyond ExportTimeout while an export is blocked
+	// in an exporter that ignores its context: the export must still be the only one in progress
 	dFlushH // ForceFlush whose context ends while its helper is inside a blocked ExportSpans: the call
 	// returns, the export stays in flight holding batchMutex, the worker is free to receive spans
 	dFlushF // ForceFlush whose marker cannot be queued (queue full, worker stuck) before its context ends:
@@ -76,6 +78,8 @@ func (o dop) coq() string {
 		return "DBlock"
 	case dWait:
 		return "DWait"
+	case dSleep:
+		return ""
 	}
 	return "DUnblock"
 }
@@ -196,6 +200,8 @@ func (s *sim) allowed(k int, smp bool) bool {
 		return s.stopped || (s.stuck && len(s.q) < s.c.qcap)
 	case dFlushF:
 		return !s.stopped && s.stuck && len(s.q) >= s.c.qcap
+	case dSleep:
+		return s.stuck || s.hstuck
 	case dFlushH:
 		// worker free, everything consumed, a non-empty batch below maxBatch, gate set to block
 		return !s.stopped && !s.stuck && !s.hstuck && s.mode == modeBlock && s.batch > 0 && len(s.q) == 0
@@ -472,6 +478,10 @@ func execProgram(c cfg, ops []dop, su detSetup) (res detResult) {
 				ctx := newLazyCtx()
 				ret = rg.flush(ctx)
 				ctx.cancel()
+			case dSleep:
+				// One-sided: on a correct processor the blocked export pins the worker (or the helper)
+				// however long this lasts; only a processor that gives up on the exporter moves on.
+				time.Sleep(su.exportTimeout + 200*time.Millisecond)
 			case dFlushH:
 				// alive until the third select (wait for the helper): the helper is then in, or on its
 				// way into, the blocked ExportSpans; its result cannot arrive before the context ends
@@ -598,6 +608,10 @@ func emitDet(w *vgen.Writer, c cfg, ops []dop, su detSetup, res detResult, kind 
 	nsd, nexp, ndrop := 0, 0, 0
 	var flagsS []string
 	for _, o := range ops {
+		if o.kind == dSleep {
+			w.Tally("det:pause-beyond-export-timeout")
+			continue
+		}
 		opsS = append(opsS, o.coq())
 		if o.kind == dEnd {
 			path := "provider"
@@ -716,6 +730,9 @@ func runDet(w *vgen.Writer, r *vgen.Rand, n int) {
 		}
 		su := plain
 		su.literalOpts = k%2 == 1
+		if p.et > 0 {
+			su.exportTimeout = p.et
+		}
 		runOne(p.c, ops, su, "det-corpus")
 	}
 	for i := 0; i < n; i++ {
@@ -885,6 +902,7 @@ type corpusProgram struct {
 	name string
 	c    cfg
 	ops  []dop
+	et   time.Duration // ExportTimeout (0: the default 1h of the deterministic fragment)
 }
 
 func corpusPrograms() []corpusProgram {
@@ -893,25 +911,31 @@ func corpusPrograms() []corpusProgram {
 	return []corpusProgram{
 		// F-C01-1 (a)+(b): the exporter blocks, Shutdown gives up on its context, a second
 		// Shutdown(Background) and a ForceFlush(Background) return nil with a span still queued
-		{"F-C01-1 cancelled", cfg{4, 1, false}, []dop{{kind: dBlock}, E, E, {kind: dShutdownX}, {kind: dShutdown}, {kind: dFlush}, {kind: dUnblock}}},
-		{"F-C01-1 50ms", cfg{4, 1, false}, []dop{{kind: dBlock}, E, E, {kind: dShutdownX, realTimeout: true}, {kind: dShutdown}, {kind: dUnblock}}},
-		{"F-C01-1 flush only", cfg{2, 2, true}, []dop{{kind: dBlock}, E, E, E, {kind: dShutdownX}, {kind: dFlush}, {kind: dUnblock}}},
+		{"F-C01-1 cancelled", cfg{4, 1, false}, []dop{{kind: dBlock}, E, E, {kind: dShutdownX}, {kind: dShutdown}, {kind: dFlush}, {kind: dUnblock}}, 0},
+		{"F-C01-1 50ms", cfg{4, 1, false}, []dop{{kind: dBlock}, E, E, {kind: dShutdownX, realTimeout: true}, {kind: dShutdown}, {kind: dUnblock}}, 0},
+		{"F-C01-1 flush only", cfg{2, 2, true}, []dop{{kind: dBlock}, E, E, E, {kind: dShutdownX}, {kind: dFlush}, {kind: dUnblock}}, 0},
 		// overflow while the worker is stuck: drops are counted, later batches carry the counter
-		{"drops", cfg{2, 1, false}, []dop{{kind: dBlock}, E, E, E, E, E, {kind: dUnblock}, E, {kind: dFlush}, {kind: dShutdown}}},
+		{"drops", cfg{2, 1, false}, []dop{{kind: dBlock}, E, E, E, E, E, {kind: dUnblock}, E, {kind: dFlush}, {kind: dShutdown}}, 0},
 		// failed exports still clear the batch
-		{"failed export", cfg{4, 2, false}, []dop{{kind: dMode, ok: false}, E, E, E, {kind: dFlush}, {kind: dMode, ok: true}, E, {kind: dFlush}, {kind: dShutdown}}},
+		{"failed export", cfg{4, 2, false}, []dop{{kind: dMode, ok: false}, E, E, E, {kind: dFlush}, {kind: dMode, ok: true}, E, {kind: dFlush}, {kind: dShutdown}}, 0},
 		// batch cut exactly at maxBatch, remainder on flush, unsampled spans skipped
-		{"cut", cfg{8, 3, false}, []dop{E, E, U, E, E, {kind: dFlush}, E, {kind: dShutdown}}},
+		{"cut", cfg{8, 3, false}, []dop{E, E, U, E, E, {kind: dFlush}, E, {kind: dShutdown}}, 0},
 		// marker left in the queue by a flush whose context ended, drained later
-		{"stale marker", cfg{3, 2, false}, []dop{{kind: dBlock}, E, E, E, {kind: dFlushT}, E, {kind: dUnblock}, {kind: dFlush}, {kind: dShutdown}}},
+		{"stale marker", cfg{3, 2, false}, []dop{{kind: dBlock}, E, E, E, {kind: dFlushT}, E, {kind: dUnblock}, {kind: dFlush}, {kind: dShutdown}}, 0},
 		// nothing after shutdown
-		{"after shutdown", cfg{2, 2, false}, []dop{E, {kind: dShutdown}, E, {kind: dFlush}, {kind: dShutdown}}},
+		{"after shutdown", cfg{2, 2, false}, []dop{E, {kind: dShutdown}, E, {kind: dFlush}, {kind: dShutdown}}, 0},
 		// a span arrives while an export started by a ForceFlush helper is still in flight (the caller's
 		// context ended, the exporter is slow): the worker receives it and must wait for batchMutex;
 		// it is exported afterwards, exactly once
-		{"arrival during a flush helper's export", cfg{2, 3, false}, []dop{E, {kind: dBlock}, {kind: dFlushH}, E, {kind: dUnblock}, {kind: dFlush}, {kind: dShutdown}}},
-		{"arrivals during a flush helper's export, blocking queue", cfg{3, 4, true}, []dop{E, E, {kind: dBlock}, {kind: dFlushH}, E, E, {kind: dUnblock}, E, {kind: dShutdown}}},
+		{"arrival during a flush helper's export", cfg{2, 3, false}, []dop{E, {kind: dBlock}, {kind: dFlushH}, E, {kind: dUnblock}, {kind: dFlush}, {kind: dShutdown}}, 0},
+		{"arrivals during a flush helper's export, blocking queue", cfg{3, 4, true}, []dop{E, E, {kind: dBlock}, {kind: dFlushH}, E, E, {kind: dUnblock}, E, {kind: dShutdown}}, 0},
+		// the exporter ignores its context and overruns a 3 ms ExportTimeout by far while the next batch is
+		// already due (queue holds a full batch): the processor must not start a second ExportSpans
+		{name: "exporter overruns the export timeout, next batch due", c: cfg{4, 2, false}, et: 3 * time.Millisecond,
+			ops: []dop{{kind: dBlock}, E, E, E, E, {kind: dSleep}, E, {kind: dUnblock}, {kind: dFlush}, {kind: dShutdown}}},
+		{name: "flush helper's export overruns the export timeout", c: cfg{3, 3, true}, et: 3 * time.Millisecond,
+			ops: []dop{E, {kind: dBlock}, {kind: dFlushH}, E, E, {kind: dSleep}, {kind: dUnblock}, E, {kind: dShutdown}}},
 		// drain cuts at maxBatch and makes the final export
-		{"drain", cfg{5, 2, true}, []dop{{kind: dBlock}, E, E, E, E, E, E, E, {kind: dShutdownX}, {kind: dUnblock}}},
+		{"drain", cfg{5, 2, true}, []dop{{kind: dBlock}, E, E, E, E, E, E, E, {kind: dShutdownX}, {kind: dUnblock}}, 0},
 	}
 }
